@@ -87,6 +87,8 @@ class LabeledUnicast(NLRI):
         for nlri in nlri_list:
             if flag == 'advertise':
                 label_hex = cls.construct_mpls_label_stack(nlri['label'])
+                # the last entry carries the bottom-of-stack bit, also for label 0 (the decoder relies on it)
+                label_hex = label_hex[:-1] + struct.pack('!B', ord(label_hex[-1:]) | 1)
             else:
                 label_hex = b'\x80\x00\x00'
             if cls.AFI == AFNUM_INET:
